@@ -45,6 +45,9 @@ def run(ctx):
         ev = fmt.roundtrip_event(lp, spec, w=False)
         traces.append({"id": "large%d" % k, "events": [ev]})
         ctx.count_case(("large", k, len(ev["chunks"])), nontrivial=True)
+    for tr in fmt.boundary_traces(spec, kinds=("project",), w=False):      # deterministic boundary values
+        traces.append(tr)
+        ctx.count_case((tr["id"],), nontrivial=True)
     cans = []
     for k, tr in enumerate(traces[:3]):
         c = {"id": "canary%d" % k, "events": [fmt.corrupt_first_int(tr["events"][0])]}
